@@ -9,6 +9,7 @@ A float64 argument is the dyadic rational `n / 2^k`; values are in 2⁻¹⁶ uni
 -/
 import SfntV.Proofs.T2Encode
 import SfntV.Proofs.T2Path
+import SfntV.Proofs.T2Glyph
 
 namespace SfntV.Props.C04
 open SfntV SfntV.T2 SfntV.T2Enc
@@ -124,6 +125,68 @@ theorem C04_path_sound (env : T2.Env) (segs : List Seg) (path : List Edge)
     (rest : List Nat) :
     Reaches strict env s (path.flatMap Edge.bytes ++ rest) (drawSegs strict s segs) rest := by
   simpa using path_reaches env segs 0 path hp hd s hr rest
+
+/-- No accumulation: whatever the decoder's current coordinate `p` is (any history), the coordinate it
+reaches after the next encoded delta, `p + val`, differs from the requested absolute coordinate `x`
+(scale 2^-K, K ≥ 16) by at most 2⁻¹⁷ — provided the step |x − p| is at most 32767 (finding C04-bigstep).
+`encodeArgs` always encodes `x − p` with `p` the sum of the deltas already encoded, for every
+coordinate of every moveto, lineto and curveto control point. -/
+theorem C04_no_accumulation (K : Nat) (hK : 16 ≤ K) (p x : Int)
+    (h : (x - p * 2 ^ (K - 16)).natAbs ≤ 32767 * 2 ^ K) :
+    2 * ((p + (encNum (x - p * 2 ^ (K - 16)) K).val) * ((2 ^ K : Nat) : Int) - x * 65536).natAbs ≤ 2 ^ K := by
+  have h2 := (C04_number_partial (x - p * 2 ^ (K - 16)) K h).2
+  have hpow : ((2 ^ K : Nat) : Int) = 2 ^ (K - 16) * 65536 := by
+    obtain ⟨j, rfl⟩ : ∃ j, K = j + 16 := ⟨K - 16, by omega⟩
+    rw [Nat.add_sub_cancel, Nat.pow_add, Int.natCast_mul, Int.natCast_pow]
+    rfl
+  have e : (p + (encNum (x - p * 2 ^ (K - 16)) K).val) * ((2 ^ K : Nat) : Int) - x * 65536 =
+      (encodeNumber (x - p * 2 ^ (K - 16)) K).1 * ((2 ^ K : Nat) : Int) - (x - p * 2 ^ (K - 16)) * 65536 := by
+    simp only [encNum]
+    rw [Int.add_mul, Int.sub_mul, hpow]
+    rw [Int.mul_assoc p]
+    omega
+  rw [e]
+  exact h2
+
+/-- Whole charstring (glyphs without stem hints and masks): for every glyph program — any interleaving
+of moveto/lineto/curveto in which drawing starts after a moveto (`cmdsOK`), any width — and EVERY choice
+of edge paths per sub-path for which `encodeCharString` produces bytes (i.e. every path of proposed
+edges), the specification interpreter run on these bytes returns exactly the glyph obtained by drawing
+the encoded commands: no error, stack never above 48, the program ends with endchar.  Hypotheses forced
+by the code: every coordinate step and `width − nominalWidth` within ±32767 (`CmdDecodes`, `Decodes`:
+C04-bigstep), drawing only after a moveto (the real decoder rejects such output of the real encoder).
+Partial: stem hints and masks (header chunks, implicit vstem) are not covered by this theorem. -/
+theorem C04_glyph_sound_partial (env : T2.Env) (K : Nat) (w : Int) (cmds : List InCmd)
+    (paths : List (List (Nat × T2.Op))) (bytes : List Nat)
+    (h : encodeCharString K w [] [] cmds env.defaultWidth env.nominalWidth paths = some bytes)
+    (hok : cmdsOK false (encodeArgs K cmds) = true) (hdec : ∀ c ∈ encodeArgs K cmds, CmdDecodes c)
+    (hw : w ≠ env.defaultWidth * 2 ^ (K - 16) → Decodes (encNum (w - env.nominalWidth * 2 ^ (K - 16)) K)) :
+    Spec.T2.interp env bytes =
+      .ok (drawCmds strict (widthDone env (startState env K w)) (encodeArgs K cmds)).glyph :=
+  glyph_sound_nostems env K w cmds paths bytes h hok hdec hw
+
+/-- Width: the glyph returned by `C04_glyph_sound_partial` has the default width if the glyph's width
+equals it, else nominal width + the encoded difference (within 2⁻¹⁷ of the glyph's width by
+`C04_number_partial`); it has no stems. -/
+theorem C04_width (env : T2.Env) (K : Nat) (w : Int) (l : List EnCmd) :
+    (drawCmds strict (widthDone env (startState env K w)) l).glyph.width =
+      (if w = env.defaultWidth * 2 ^ (K - 16) then env.defaultWidth
+       else (encNum (w - env.nominalWidth * 2 ^ (K - 16)) K).val + env.nominalWidth) ∧
+    (drawCmds strict (widthDone env (startState env K w)) l).glyph.hstem = [] ∧
+    (drawCmds strict (widthDone env (startState env K w)) l).glyph.vstem = [] := by
+  obtain ⟨h1, h2, h3⟩ := drawCmds_frame strict (widthDone env (startState env K w)) l
+  simp only [T2.St.glyph, h1, h2, h3]
+  by_cases hw : w = env.defaultWidth * 2 ^ (K - 16)
+  · simp [startState, hw, widthDone, T2.St.init]
+  · have : (w != env.defaultWidth * 2 ^ (K - 16)) = true := by simpa using hw
+    simp [startState, this, hw, widthDone, T2.St.init]
+
+/-- the full statement, with stem hints and masks (not proved; checked by the D stream `t2.rt`) -/
+def C04_glyph_sound_full : Prop :=
+  ∀ (env : T2.Env) (K : Nat) (w : Int) (hs vs : List Int) (cmds : List InCmd)
+    (paths : List (List (Nat × T2.Op))) (bytes : List Nat),
+    encodeCharString K w hs vs cmds env.defaultWidth env.nominalWidth paths = some bytes →
+    (∀ c ∈ encodeArgs K cmds, CmdDecodes c) → ∃ g, Spec.T2.interp env bytes = .ok g
 
 /-- non-vacuity: for "5 0 lineto-delta, 0 7, 3 4" the proposals at node 0 are rlineto over 1 and 2… -/
 def exSegs : List Seg :=
